@@ -143,6 +143,9 @@ def shards(tier, seed):
     for i in range(n):
         out.append(('progs', i, n, tier))
     out.append(('configs', None, None, tier))
+    if tier == 'thorough':
+        for i in range(48):
+            out.append(('allconfigs', i, 48, tier))
     out.append(('outcomes', None, None, tier))
     for first in range(len(SEQ_MENU)):
         out.insert(0, ('sequence', first, None, tier))
@@ -314,7 +317,7 @@ def errpage(code, cfg):
         return (500, b'custom500', None)
     if h == '404resp' and code == 404:
         return (200, b'nf', None)
-    if (h == '500raise' and code == 500) or h == 'allraise':
+    if (h == '500raise' and code == 500) or (h == 'allraise' and code in (404, 405, 500)):
         return (500, None, 'critical')
     return (code, None, 'page')
 
@@ -603,6 +606,17 @@ def work(spec):
     elif kind == 'configs':
         for cfg in CONFIGS:
             for prog in REPR_PROGS:
+                for method in ('GET', 'HEAD'):
+                    run_case(res, om, prog, method, cfg)
+    elif kind == 'allconfigs':
+        # thorough: every program of the grammar under every hook / error-handler configuration
+        progs = programs(tier)
+        for j, prog in enumerate(progs):
+            if j % n != i:
+                continue
+            for cfg in CONFIGS:
+                if cfg.get('other_app'):
+                    continue
                 for method in ('GET', 'HEAD'):
                     run_case(res, om, prog, method, cfg)
         core.add_sample(res, {'configs': CONFIGS[:4], 'representative_programs': core.jsonable(REPR_PROGS[:4])})
